@@ -88,9 +88,9 @@ Proof.
     rewrite Hc in FT. inversion FT; subst. destruct prov; reflexivity.
   - destruct r as [objs|e]; [|reflexivity].
     destruct (pm_only_permitted_clean _ _ _ _ _ _ _ _ Hsig FT) as (pf & Hc & Hall).
-    assert (forall o, In o objs -> pm_key_admitted false u perm inv (pm_key_of o) = true) as Hadm.
-    { intros o Ho. destruct (Hall o Ho) as [Hin Hev]. unfold pm_key_admitted, pm_key_of. cbn [fst snd].
-      rewrite (Hwf o Hin). cbn [pm_admit_g]. unfold pm_spec_admit. eapply pm_granted_admit; eassumption. }
+    assert (forall o, In o objs -> pm_key_allowed false u perm inv (pm_key_of o) = true) as Hadm.
+    { intros o Ho. destruct (Hall o Ho) as [Hin Hev]. unfold pm_key_allowed, pm_key_of. cbn [fst snd].
+      rewrite (Hwf o Hin). cbn [pm_allow_g]. unfold pm_spec_allow. eapply pm_granted_allow; eassumption. }
     apply andb_true_intro. split.
     + apply forallb_forall. intros k Hk. apply in_map_iff in Hk. destruct Hk as (o & <- & Ho). auto.
     + apply negb_true_iff. destruct (existsb _ (pm_named q tys)) eqn:X; [exfalso|reflexivity].
@@ -102,28 +102,28 @@ Proof.
       assert (In o objs) as Hoo.
       { destruct Hobjs as [->|(t' & l & _ & _ & ->)]; [assumption|apply in_or_app; left; assumption]. }
       unfold pm_key_forbidden in Hf. cbn [fst snd] in Hf. rewrite L in Hf.
-      specialize (Hadm o Hoo). unfold pm_key_admitted, pm_key_of in Hadm. cbn [fst snd] in Hadm.
+      specialize (Hadm o Hoo). unfold pm_key_allowed, pm_key_of in Hadm. cbn [fst snd] in Hadm.
       apply pm_lookup_some in L. destruct L as (Hi & Hty & Hnm). rewrite Hty, Hnm in Hadm.
       assert (pm_lookup inv t n = Some o) as L2 by (rewrite <- Hty, <- Hnm; apply Hwf; assumption).
       rewrite L2 in Hadm. rewrite Hadm in Hf. discriminate.
 Qed.
 
-(* HasPermission + admitted objects, and joins *)
+(* HasPermission + allowed objects, and joins *)
 Theorem pm_oracle_perm_accepts_model u perm inv :
   pm_inv_wf inv ->
   pm_oracle_perm u perm inv (fst (pm_has_permission u perm))
-    (map fst (filter (fun ke => negb (snd ke)) (pm_admits u perm inv))) = true.
+    (map fst (filter (fun ke => negb (snd ke)) (pm_allows u perm inv))) = true.
 Proof.
   intros Hwf. unfold pm_oracle_perm. destruct perm as [|c0 p0] eqn:Hp; [reflexivity|]. rewrite <- Hp.
   assert (perm <> []) as Hne by (rewrite Hp; discriminate).
   rewrite pm_spec_has_correct, Bool.eqb_reflx. cbn [andb].
   apply forallb_forall. intros k Hk. apply in_map_iff in Hk. destruct Hk as ([k' b] & <- & Hk).
   apply filter_In in Hk. destruct Hk as [Hk Hb]. cbn in Hb. destruct b; [discriminate|]. cbn [fst].
-  unfold pm_admits in Hk. destruct (pm_has_permission u perm) as [found pf] eqn:E. destruct found; [|destruct Hk].
+  unfold pm_allows in Hk. destruct (pm_has_permission u perm) as [found pf] eqn:E. destruct found; [|destruct Hk].
   apply in_flat_map in Hk. destruct Hk as (o & Ho & Hk).
   destruct (pm_eval_opt pf None o) eqn:Ev; cbn in Hk; try (destruct Hk as [Hk|[]]; inversion Hk; subst; clear Hk); try destruct Hk.
-  unfold pm_key_admitted, pm_key_of. cbn [fst snd]. rewrite (Hwf o Ho). cbn [pm_admit_g].
-  eapply pm_granted_admit; [exact Hne| |exact Ev]. unfold pm_check_permission. rewrite E. reflexivity.
+  unfold pm_key_allowed, pm_key_of. cbn [fst snd]. rewrite (Hwf o Ho). cbn [pm_allow_g].
+  eapply pm_granted_allow; [exact Hne| |exact Ev]. unfold pm_check_permission. rewrite E. reflexivity.
 Qed.
 
 Theorem pm_oracle_joins_accepts_model u inv l :
@@ -131,6 +131,6 @@ Theorem pm_oracle_joins_accepts_model u inv l :
   pm_oracle_joins u inv (map pm_key_of l) = true.
 Proof.
   intros Hwf H. unfold pm_oracle_joins. apply forallb_forall. intros k Hk. apply in_map_iff in Hk.
-  destruct Hk as (o & <- & Ho). destruct (H o Ho) as [Hin Hv]. unfold pm_key_admitted, pm_key_of. cbn [fst snd].
-  rewrite (Hwf o Hin). cbn [pm_admit_g]. apply pm_join_only_permitted. assumption.
+  destruct Hk as (o & <- & Ho). destruct (H o Ho) as [Hin Hv]. unfold pm_key_allowed, pm_key_of. cbn [fst snd].
+  rewrite (Hwf o Hin). cbn [pm_allow_g]. apply pm_join_only_permitted. assumption.
 Qed.
